@@ -8,8 +8,9 @@ PROPS_MODULE = "Props.C13"
 THEOREMS = ["series_dispatch_correct", "plot_dispatch_correct", "csv_dispatch_correct", "plot_labels", "tables_same_keys",
             "linspace_endpoints"]
 EXTRA_PROPS = {"Props.C13b": ["series_column_values", "series_column_order", "time_series_pointwise", "time_series_example", "series_misaligned_without_it", "plot_curves_pointwise", "plot_curves_defined", "plot_curves_example",
-                              "dataset_order_spec", "dataset_order_keyerror", "plot_display_all_spec", "dataset_order_example", "order_literals"]}
-REQUIRED = ["Props/C13.v", "Props/C13b.v", "Model/Series.v", "Model/SeriesAsm.v"]
+                              "dataset_order_spec", "dataset_order_keyerror", "plot_display_all_spec", "dataset_order_example", "order_literals"],
+               "Props.C13c": ["decayed_nuclides_time_independent"]}
+REQUIRED = ["Props/C13.v", "Props/C13b.v", "Props/C13c.v", "Model/Series.v", "Model/SeriesAsm.v"]
 TRANSLATORS = ["tr_pure", "tr_tables"]
 SHAPE_KEYS = ["decay_time_series", "sort_list_according_to_dataset", "AbstractInventory::plot", "InventoryHP::plot", "decay_graph", "Inventory::decay", "InventoryHP::decay"]
 PARTIAL = ["the assembly of the series table from separate decays is PROVED pointwise for every list of times and every read-out (Props/C13b.v, model tied by "
@@ -17,7 +18,7 @@ PARTIAL = ["the assembly of the series table from separate decays is PROVED poin
            "curve selection and limits are decided on the implementation (bit-identical comparison for all 47 read-out kinds x {linear, log}); "
            "the proof also covers the unit dispatch for every string, the y-labels and the linear grid model",
            "numpy.logspace: the exponents are checked bit-exactly against the linear-grid model, the power within 2 ulp (libm pow); matplotlib rendering below Axes.plot is outside the model"]
-TRUSTED_BASE = ["Coq 8.16.1 kernel incl. vm_compute", "axioms: none (primitive float items for the grid model)",
+TRUSTED_BASE = ["Coq 8.16.1 kernel incl. vm_compute", "axioms: none for the dispatch / assembly / curve / order theorems (primitive float items for the grid model); the standard Reals axioms for decayed_nuclides_time_independent (statement over the real-valued decay model)",
                 "tr_pure.py dispatch-chain extractor; tr_shapes.py ties", "harness tools/impl_series.py (decay_graph wrapped to record its arguments; drawn lines read back from the matplotlib axes)"]
 ASSUMPTIONS = ["numpy.linspace computes i*step+start with the last point set to stop (checked bit-exactly per case)"]
 
